@@ -4,7 +4,7 @@ from props import srvprop
 
 
 def nontrivial(cfg, ops, results):
-    saved = set((o[1], o[-1] if o[0] == 'save_session' else o[2]) for o in ops if o[0] in ('save_session', 'session_set', 'session_replace', 'session_nested'))
+    saved = set((o[1], o[-1] if o[0] == 'save_session' else o[2]) for o in ops if o[0] in ('save_session', 'session_set', 'session_replace', 'session_nested', 'session_span'))
     recon = sum(1 for o in ops if o[0] == 'msg' and isinstance(o[2], str) and o[2][:1] == '0') >= 3
     return len(saved) >= 2 or (saved and recon)
 
